@@ -2,6 +2,7 @@ package props
 
 import (
 	"fmt"
+	"sort"
 
 	"verif/harness/gen"
 	"verif/harness/runner"
@@ -49,6 +50,11 @@ func c05Run(c *runner.Ctx) {
 				cands = append(cands, ft{f, t})
 			}
 		}
+		long := append([]ft(nil), cands...)
+		sort.SliceStable(long, func(i, j int) bool { return len(sg.X.DocsOf(long[i].f, long[i].t)) > len(sg.X.DocsOf(long[j].f, long[j].t)) })
+		if len(long) > 12 {
+			long = long[:12]
+		}
 		for k := 0; k < perSeg; k++ {
 			var q navReq
 			q.sg = sg
@@ -60,6 +66,9 @@ func c05Run(c *runner.Ctx) {
 					q.field = sg.X.Fields[r.Intn(len(sg.X.Fields))]
 				}
 				q.term = "absent-term"
+			case x < 6 && len(long) > 0: // one of the segment's longest lists (multi-chunk lists, the term present in every document …)
+				a := long[r.Intn(len(long))]
+				q.field, q.term = a.f, a.t
 			default:
 				// prefer long lists: pick the longer of two candidates
 				a, b := cands[r.Intn(len(cands))], cands[r.Intn(len(cands))]
